@@ -1570,3 +1570,61 @@ Module FlexTreesK.
   Proof. repeat split; vm_compute; reflexivity. Qed.
   Print Assumptions C04_flex_algorithm_partial_example.
 End FlexTreesK.
+
+(* ------------------------------------------------------------------------------------------------------------ *)
+(** * Whole GRID containers (wave 9e, notes/GRIDREL.md)
+
+   `grid_alg` (Model/GridAlg.v: all of compute_grid_layout as a resumption) is proved relational in lockstep for any style relation that
+   implies the weak relation `gstyle_wrel k` (Props/C12.v GridContainers uses it at k = 1).  Scaling every length implies the weak relation
+   (C04_grid_resolutions_homogeneous), the container preprocessing is homogeneous without premise (C04_grid_pre_homogeneous), and so is every
+   phase EXCEPT the track kernels that compare a length with an absolute constant (distribute_space_up_to_limits THRESHOLD = 0.01 and the
+   1e-6 of distribute_item_space_to_base_size: the KNOWN FINDING, C04_grid_maximise_refuted).  C04_grid_algorithm_homogeneous_partial states
+   the whole algorithm under `thresholds_scale k` = "both constants are invariant under scaling by k", which holds at k = 1 only
+   (C04_grid_thresholds_scale_one): for k <> 1 it says that these two constants are the ONLY inhomogeneous ingredients of
+   compute_grid_layout in the sense that every lemma of the proof other than the two kernel lemmas is premise-free in k.  Missing for a
+   statement that is non-vacuous at k <> 1: `grid_alg_t tau tau2` (the model with both constants as parameters, as Model/FlexAlgT.v does for
+   the flex floor) and the tau-parametric composition (the kernels ARE proved tau-parametric: C04_grid_distribute, C04_grid_maximise). *)
+From TV Require Model.GridAlgBase Model.GridAlg Model.GridAlgRel Model.GridSizingRel Model.GridRelExample Model.GridRelExampleK.
+From TV Require Proofs.GridStyleRel Proofs.GridRelTop Proofs.GridRelExamples.
+Module GridContainers.
+  Import TV.Model.Common TV.Model.Leaf TV.Model.Scale TV.Model.ScaleGrid TV.Model.FlexAlgBase TV.Model.FlexAlgRel.
+  Import TV.Model.GridAlgBase TV.Model.GridAlg TV.Model.GridAlgRel TV.Model.GridSizingRel TV.Model.GridRelExample TV.Model.GridRelExampleK.
+  Import TV.Model.Engine TV.Model.EngineRel.
+  Import TV.Proofs.GridStyleRel TV.Proofs.GridRelTop TV.Proofs.GridRelExamples.
+  Import ListNotations.
+
+  Theorem C04_grid_scaled_is_related : forall (k : Q) (s : GStyle XQ), gstyle_rel k s (gstyle_scale k s).
+  Proof. exact gstyle_rel_scale. Qed.
+
+  (* every resolution grid_alg performs on a style -- its own or a child's -- is homogeneous *)
+  Theorem C04_grid_resolutions_homogeneous : forall (k : Q) (s s' : GStyle XQ), (0 < k)%Q -> gstyle_rel k s s' -> gstyle_wrel k s s'.
+  Proof. exact (fun k s s' Hk => gwrel_of_rel k Hk s s'). Qed.
+
+  (* compute_grid_layout l.50-138: padding, border, min / max / preferred size, gutter, inset, available grid space, outer / inner size *)
+  Theorem C04_grid_pre_homogeneous : forall (k : Q) (s s' : GStyle XQ) (i i' : GIn XQ),
+    (0 < k)%Q -> gstyle_rel k s s' -> fin_rel k i i' -> pre_rel k (grid_pre s i) (grid_pre s' i').
+  Proof. exact (fun k s s' i i' => grid_pre_homogeneous k s s' i i'). Qed.
+
+  Theorem C04_grid_thresholds_scale_one : thresholds_scale 1.
+  Proof. exact thresholds_scale_one. Qed.
+
+  (* PARTIAL: see the header -- the premise `thresholds_scale k` is the known finding; it holds at k = 1 only *)
+  Theorem C04_grid_algorithm_homogeneous_partial : forall k : Q, (0 < k)%Q -> thresholds_scale k ->
+    Homogeneous (GStyle XQ) (GIn XQ) (LayoutOutput XQ) (GLay XQ) (gstyle_rel k) (fin_rel k) (output_rel k) (flay_rel k) grid_alg.
+  Proof. exact grid_alg_homogeneous_thresholds. Qed.
+
+  (* computed, k = 4, on the instance of Model/GridRelExample.v (thresholds not reached): styles, input and answers x 4 give the result and
+     the stored layouts x 4 (item a 144 x 64, item b 248 x 64); the comparison fails against the run at k = 2 *)
+  Example C04_grid_algorithm_example :
+    ge_scaled_same 4 (ge_run ge_container [ge_a; ge_b]) (ge_run_k 4 ge_container [ge_a; ge_b]) = true /\
+    ge_sizes (ge_run_k 4 ge_container [ge_a; ge_b]) = [(0%nat, gq 144, gq 64); (1%nat, gq 248, gq 64)] /\
+    ge_scaled_same 4 (ge_run ge_container [ge_a; ge_b]) (ge_run_k 2 ge_container [ge_a; ge_b]) = false.
+  Proof. exact ge_scaled_4. Qed.
+
+  Print Assumptions C04_grid_scaled_is_related.
+  Print Assumptions C04_grid_resolutions_homogeneous.
+  Print Assumptions C04_grid_pre_homogeneous.
+  Print Assumptions C04_grid_thresholds_scale_one.
+  Print Assumptions C04_grid_algorithm_homogeneous_partial.
+  Print Assumptions C04_grid_algorithm_example.
+End GridContainers.
